@@ -38,6 +38,8 @@ def rows_canon(d, rng):
         rows.append({"d": d["id"], "ep": "canon_via_from_str", "ins": ins})
     if "Serialize" in d["traits"] and "Deserialize" in d["traits"]:
         rows.append({"d": d["id"], "ep": "canon_via_deser", "ins": sub})
+        rows.append({"d": d["id"], "ep": "canon_via_deser_seq", "ins": sub})
+        rows.append({"d": d["id"], "ep": "canon_via_deser_ronv", "ins": sub})
     if "Display" in d["traits"] and "FromStr" in d["traits"]:
         rows.append({"d": d["id"], "ep": "canon_disp", "ins": sub})
     if "Serialize" in d["traits"] and "Deserialize" in d["traits"]:
